@@ -383,7 +383,7 @@ def lower_range_for(sl, elem_type, required=False):
     while True:
         ts = Source("<slice:%s>" % sl.name, text=sl.text)
         m = None
-        for mm in re.finditer(r"\bfor\s*\(\s*(const\s+)?auto\s*(&?)\s*(\w+)\s*:\s*", ts.text):
+        for mm in re.finditer(r"\bfor\s*\(\s*(const\s+)?(?:auto|%s)\s*(&?)\s*(\w+)\s*:\s*" % re.escape(elem_type), ts.text):
             if ts.mask[mm.start()] == "c":
                 m = mm
                 break
@@ -643,4 +643,47 @@ def lower_exceptions(sl, ret_default, kinds, flag="verif_exc"):
     sl.rules["L26:throw->flag + return"] = sl.rules.get("L26:throw->flag + return", 0) + n_throw
     sl.rules["L26:try/catch->goto + flag test"] = sl.rules.get("L26:try/catch->goto + flag test", 0) + n_try
     sl.rules["L26:exception propagation checks"] = sl.rules.get("L26:exception propagation checks", 0) + n_prop
+    return sl
+
+
+def lower_structured_pair(sl, first_type, second_type, only_if=None):
+    """Rule L2: `[const] auto[&] [a, b] = EXPR;` -> an explicit std::pair local and two typed locals (CBMC's front end has
+    neither structured bindings nor `auto` over class types).  only_if: regex the initialiser must match."""
+    count = 0
+
+    def rep(m):
+        nonlocal count
+        if only_if and not re.search(only_if, m.group(4)):
+            return m.group(0)
+        k = count
+        count += 1
+        c = m.group(1) or ""
+        return ("std::pair<%s, %s> verif_sb%d = %s; %s%s %s = verif_sb%d.first; %s%s %s = verif_sb%d.second;"
+                % (first_type, second_type, k, m.group(4), c, first_type, m.group(2), k, c, second_type, m.group(3), k))
+    sl.text = re.sub(r"\b(const\s+)?auto\s*&?\s*\[\s*(\w+)\s*,\s*(\w+)\s*\]\s*=\s*([^;]+);", rep, sl.text)
+    sl.rules["L2:structured binding of a pair->explicit locals"] = sl.rules.get("L2:structured binding of a pair->explicit locals", 0) + count
+    return sl
+
+
+def hoist_enclosing_lambdas(src, fn_slice, sl):
+    """A local lambda defined in the enclosing function before the slice and used inside it is copied in front of the slice
+    (so that rule L25 can expand it at its calls)."""
+    before = src.text[fn_slice.start:sl.start]
+    ts = Source("<before>", text=before)
+    n = 0
+    pre = ""
+    for m in re.finditer(r"(?:const\s+)?auto\s+(\w+)\s*=\s*\[[^\]]*\]\s*\([^)]*\)\s*(?:mutable\s*)?\{", before):
+        if ts.mask[m.start()] != "c" or not re.search(r"\b%s\s*\(" % re.escape(m.group(1)), sl.text):
+            continue
+        be = ts.match_brace(m.end() - 1)
+        j = be
+        while before[j] in " \t\n":
+            j += 1
+        if before[j] != ";":
+            continue
+        pre += before[m.start():j + 1] + "\n"
+        n += 1
+    if n:
+        sl.text = pre + sl.text
+    sl.rules["L25a:lambda of the enclosing function used in the slice->copied in front of it"] = n
     return sl
